@@ -12,6 +12,15 @@ pub struct Program {
     pub blocks: Vec<(String, String)>,
     /// component names with their parameter names (all optional / defaulted except `a`)
     pub components: Vec<String>,
+    /// for every include template: (name, head, tail) such that head + tail is its source and the cut lies between two
+    /// top-level statements (C03: moving the tail into an include of its own must not change anything)
+    pub splits: Vec<(String, String, String)>,
+}
+
+impl Program {
+    pub fn clone_templates(&self) -> Vec<(String, String)> {
+        self.templates.clone()
+    }
 }
 
 pub struct PGen<'a> {
@@ -30,6 +39,8 @@ pub struct PGen<'a> {
     loop_depth: usize,
     depth: usize,
     in_component: bool,
+    /// offsets of the top-level statements of the body generated last
+    last_cuts: Vec<usize>,
 }
 
 pub const STR_VARS: [&str; 4] = ["s1", "s2", "m.k1", "mm.a.b"];
@@ -74,7 +85,7 @@ pub fn base_context() -> Vec<(&'static str, V)> {
 
 impl<'a> PGen<'a> {
     pub fn new(rng: &'a mut Rng) -> Self {
-        PGen { rng, path_bias: false, allow_safe: true, markup_free: false, block_markers: false, ninc: 0, ncomp: 0, loop_depth: 0, depth: 0, in_component: false }
+        PGen { rng, path_bias: false, allow_safe: true, markup_free: false, block_markers: false, ninc: 0, ncomp: 0, loop_depth: 0, depth: 0, in_component: false, last_cuts: Vec::new() }
     }
 
     fn pick<'b>(&mut self, xs: &'b [&'b str]) -> &'b str {
@@ -251,7 +262,9 @@ impl<'a> PGen<'a> {
         self.depth += 1;
         let n = 1 + self.rng.below(if self.depth > 2 { 2 } else { 5 });
         let mut out = String::new();
+        let mut cuts: Vec<usize> = Vec::new();
         for _ in 0..n {
+            cuts.push(out.len());
             let choice = self.rng.below(if self.depth > 3 { 4 } else { 16 });
             match choice {
                 0 | 1 => {
@@ -358,6 +371,9 @@ impl<'a> PGen<'a> {
             }
         }
         self.depth -= 1;
+        if self.depth == 0 {
+            self.last_cuts = cuts;
+        }
         out
     }
 
@@ -383,9 +399,14 @@ impl<'a> PGen<'a> {
         // includes: inc_j may include inc_k for k > j (acyclic)
         self.ninc = self.rng.below(3);
         let mut includes: Vec<String> = Vec::new();
+        let mut splits: Vec<(String, String, String)> = Vec::new();
         for j in (0..self.ninc).rev() {
             let name = format!("inc{j}.html");
             let body = self.body(&includes.clone(), &components);
+            if !self.last_cuts.is_empty() {
+                let k = self.last_cuts[self.rng.below(self.last_cuts.len())];
+                splits.push((name.clone(), format!("[i{j}:{}", &body[..k]), format!("{}]", &body[k..])));
+            }
             templates.push((name.clone(), format!("[i{j}:{body}]")));
             includes.push(name);
         }
@@ -447,6 +468,6 @@ impl<'a> PGen<'a> {
             }
             entries.push(name);
         }
-        Program { templates, entries, blocks, components }
+        Program { templates, entries, blocks, components, splits }
     }
 }
